@@ -236,6 +236,25 @@ pub fn fanin(n: usize, k: usize) -> Scenario {
     }
 }
 
+/// `typed_mail(v)`: a single sender; the receiver waits for a message type/value that arrives
+/// *after* other messages, so it parks with a non-empty mailbox and must still be woken.
+pub fn typed_mail(variant: usize) -> Scenario {
+    let src = match variant {
+        0 => "r = @{ !'bin =b, !'int =i, [b, i] },\n5 r,\n0x01 r,\n!r",
+        1 => "r = @{ !'bin =b, !'int =i, !'int =j, [b, i, j] },\n5 r,\n6 r,\n0x01 r,\n!r",
+        2 => "r = @{ ! [#'int { =2 => Ok }] =a, !'int =b, !'int =c, [a, b, c] },\n1 r,\n3 r,\n2 r,\n!r",
+        3 => "r = @{ !'bin =b, ! [#'int { =7 => Ok }] =i, !'int =j, [b, i, j] },\n5 r,\n7 r,\n0x01 r,\n!r",
+        _ => "c = @{ !'int },\nr = @{ !'bin =b, !c =v, !'int =i, [b, v, i] },\n5 r,\n9 c,\n0x01 r,\n!r",
+    };
+    Scenario {
+        id: format!("typed_mail({})", variant),
+        family: "typed_mail",
+        source: src.to_string(),
+        confluent: true,
+        io: false,
+    }
+}
+
 fn permutations(n: usize) -> Vec<Vec<usize>> {
     fn rec(cur: &mut Vec<usize>, used: &mut Vec<bool>, n: usize, out: &mut Vec<Vec<usize>>) {
         if cur.len() == n {
@@ -286,6 +305,9 @@ pub fn confluent_all(thorough: bool) -> Vec<Scenario> {
     for n in 1..=kmax {
         v.push(spawn_storm(n));
     }
+    for variant in 0..5 {
+        v.push(typed_mail(variant));
+    }
     v
 }
 
@@ -307,7 +329,7 @@ pub fn messaging_all(thorough: bool) -> Vec<Scenario> {
 }
 
 pub const FAMILIES: &[&str] = &[
-    "pipe", "fanout", "fanout_race", "reqrep", "await_chain", "late_await", "spawn_storm", "fanin",
+    "pipe", "fanout", "fanout_race", "reqrep", "await_chain", "late_await", "spawn_storm", "fanin", "typed_mail",
     "select_mix", "bin", "res", "fail", "refs",
 ];
 
